@@ -438,6 +438,7 @@ pub fn decode_case(t: &mut Tape, thorough: bool) -> HuffCase {
                 0 => 0,
                 1 => 1,
                 2 => 8,
+                3 if t.chance(12) => 3000 + t.below(6000), // the bit cursor crosses 2^16
                 3 => 16 + t.below(24),
                 _ => t.below(12),
             };
